@@ -7,6 +7,7 @@
    calls made during the run; the model's Gram matrix must be EQUAL to a recorded input, and the
    recorded output is then used as pinv's value. *)
 From Coq Require Import ZArith QArith List Bool PrimFloat.
+From Coq Require String.
 From NT Require Import F2Z Lists Close EventRelated.
 Import ListNotations.
 Open Scope Z_scope.
@@ -51,8 +52,8 @@ Definition sem_ok (y : float) (m : option Q) : bool :=
   | Some v => ffinite y && Qle_bool 0 (f2q y) && closeb (f2q y * f2q y)%Q v
   end.
 
-Definition flat3 {A} (h : list (list (list A))) : list A := concat (map (@concat A) h).
-Definition flat2 {A} (h : list (list A)) : list A := concat h.
+Definition flat3 {A} (h : list (list (list A))) : list A := List.concat (map (@List.concat A) h).
+Definition flat2 {A} (h : list (list A)) : list A := List.concat h.
 
 Definition cmp_arr {A} (cmp : list float -> list A -> bool) (r : res (list nat * list A)) (offset dt : Z)
   (check_dt : bool) (out : outcome) : bool :=
@@ -103,3 +104,19 @@ Definition check (c : kcase) : bool :=
       finite_data data &&
       cmp_arr (all2 sem_ok) (with_shape2 len (ets_events (qdata data) times dt len offset bc zs)) offset dt true out
   end.
+
+(* generated-fact side: which estimators read the two flags (reflection on the getters' code objects).
+   The model: zscore is read by none of FIR / eta / ets / et_data (only by xcorr_eta, not modelled);
+   correct_baseline is read by eta and ets only. *)
+Definition flag_row := (String.string * bool * bool)%type.    (* method, reads _zscore, reads _correct_baseline *)
+Definition flag_row_eqb (a b : flag_row) : bool :=
+  let '(n, z, c) := a in let '(n', z', c') := b in String.eqb n n' && Bool.eqb z z' && Bool.eqb c c'.
+Module FlagNames.
+  Import String.
+  Local Open Scope string_scope.
+  Definition model_flag_table : list flag_row :=
+    [("FIR", false, false); ("eta", false, true); ("ets", false, true); ("et_data", false, false);
+     ("xcorr_eta", true, false)].
+End FlagNames.
+Definition model_flag_table := FlagNames.model_flag_table.
+Definition flag_table_ok (gen : list flag_row) : bool := list_eqb flag_row_eqb gen model_flag_table.
